@@ -270,6 +270,7 @@ func runC18(res *lp.Result) {
 		}
 		res.Count("rounds")
 	}
+	runC18First(res)
 	if raceEnabled {
 		res.Notes = append(res.Notes, "race detector enabled in this run")
 	} else {
